@@ -116,6 +116,7 @@ pub fn run_e2e(ctx: Ctx) -> Report {
             return rep;
         };
         let tport = target.port;
+        let server_addr_fe = server_addr.clone();
         // target: per connection (told apart by the dialled address) wait, then read to the end
         let got: Arc<Mutex<std::collections::HashMap<std::net::SocketAddr, (u64, u64, bool)>>> = Arc::new(Mutex::new(Default::default()));
         let delays: Arc<Mutex<std::collections::HashMap<std::net::SocketAddr, u64>>> = Arc::new(Mutex::new(Default::default()));
@@ -270,6 +271,131 @@ pub fn run_e2e(ctx: Ctx) -> Report {
                         rep.violate("mux", &cause, "content_mismatch", format!("the target received {n} bytes, as many as were uploaded, but not the same bytes"), case);
                     }
                 }
+            }
+        }
+        // ---- downloads through the front-ends to an application that reads late and in bursts: the local socket
+        // fills up, so the front-end's relay meets partial progress and back-pressure on the application's side
+        {
+            use tokio::io::AsyncWriteExt;
+            let client = netkit::make_client(&server_addr_fe, netkit::PASSWORD, engine::default_padding(), netkit::quiet_pool());
+            let fronts = (netkit::start_socks5(client.clone()).await, netkit::start_http(client.clone()).await);
+            let source = tokio::net::TcpListener::bind("127.0.0.1:0").await;
+            if let ((Some((socks, _h1)), Some((http, _h2))), Ok(source)) = (fronts, source) {
+                let sport = source.local_addr().map(|a| a.port()).unwrap_or(0);
+                // the source learns how much to send from the first 8 bytes it is sent (size, little endian) and then
+                // streams Pattern(seed, 0xD0, 0) as fast as the connection takes it, and closes
+                tokio::spawn(async move {
+                    loop {
+                        let Ok((mut s, _)) = source.accept().await else { continue };
+                        tokio::spawn(async move {
+                            let mut sz = [0u8; 8];
+                            if s.read_exact(&mut sz).await.is_err() {
+                                return;
+                            }
+                            let size = u64::from_le_bytes(sz);
+                            let pat = Pattern::new(seed, 0xD0, 0);
+                            let mut off = 0u64;
+                            while off < size {
+                                let n = (size - off).min(256 * 1024) as usize;
+                                if s.write_all(&pat.make(off, n)).await.is_err() {
+                                    return;
+                                }
+                                off += n as u64;
+                            }
+                            let _ = s.shutdown().await;
+                            let mut rest = Vec::new();
+                            let _ = tokio::time::timeout(Duration::from_secs(60), s.read_to_end(&mut rest)).await;
+                        });
+                    }
+                });
+                let plans: Vec<(bool, u64, u64, usize)> = if quick { vec![(false, 24 << 20, 1500, 1 << 20), (true, 24 << 20, 1500, 1 << 20), (false, 3 << 20, 300, 4096)] } else { vec![(false, 24 << 20, 1500, 1 << 20), (true, 24 << 20, 1500, 1 << 20), (false, 3 << 20, 300, 4096), (true, 3 << 20, 300, 4096), (false, 64 << 20, 3000, 1 << 16), (true, 64 << 20, 3000, 1 << 16), (false, 8 << 20, 0, 700), (true, 8 << 20, 0, 700)] };
+                for (via_http, size, late_ms, burst) in plans {
+                    let front = if via_http { "http_connect" } else { "socks5" };
+                    let case = json!({"kind": "c01-e2e-download", "front": front, "size": size, "application_starts_reading_after_ms": late_ms, "burst": burst, "seed": seed.to_string()});
+                    rep.case(Some(hash_str(&case.to_string())));
+                    let r: Result<(u64, u64, u64, bool), String> = async {
+                        let mut s = if via_http {
+                            let mut s = tokio::net::TcpStream::connect(&http).await.map_err(|e| e.to_string())?;
+                            s.write_all(format!("CONNECT 127.0.0.1:{sport} HTTP/1.1\r\nHost: 127.0.0.1:{sport}\r\n\r\n").as_bytes()).await.map_err(|e| e.to_string())?;
+                            let mut head = Vec::new();
+                            let mut b = [0u8; 1];
+                            while !head.ends_with(b"\r\n\r\n") {
+                                let n = tokio::time::timeout(Duration::from_secs(20), s.read(&mut b)).await.map_err(|_| "no CONNECT answer".to_string())?.map_err(|e| e.to_string())?;
+                                if n == 0 || head.len() > 4096 {
+                                    return Err("CONNECT answer incomplete".into());
+                                }
+                                head.push(b[0]);
+                            }
+                            if !head.starts_with(b"HTTP/1.1 200") {
+                                return Err(format!("CONNECT refused: {}", String::from_utf8_lossy(&head)));
+                            }
+                            s
+                        } else {
+                            let (s, code) = netkit::socks5_connect(&socks, &netkit::SocksDest::V4(std::net::Ipv4Addr::LOCALHOST, sport), Duration::from_secs(20)).await?;
+                            if code != 0 {
+                                return Err(format!("socks reply {code}"));
+                            }
+                            s
+                        };
+                        s.write_all(&size.to_le_bytes()).await.map_err(|e| e.to_string())?;
+                        tokio::time::sleep(Duration::from_millis(late_ms)).await;
+                        let pat = Pattern::new(seed, 0xD0, 0);
+                        let mut buf = vec![0u8; burst];
+                        let mut got = 0u64;
+                        let mut first_diff: Option<u64> = None;
+                        let mut eof = false;
+                        let mut reads = 0u64;
+                        loop {
+                            match tokio::time::timeout(Duration::from_secs(20), s.read(&mut buf)).await {
+                                Ok(Ok(0)) => {
+                                    eof = true;
+                                    break;
+                                }
+                                Ok(Ok(n)) => {
+                                    if first_diff.is_none() {
+                                        let want = pat.make(got, n);
+                                        if want != buf[..n] {
+                                            first_diff = Some(got + want.iter().zip(&buf[..n]).position(|(a, b)| a != b).unwrap_or(0) as u64);
+                                        }
+                                    }
+                                    got += n as u64;
+                                    reads += 1;
+                                    if reads % 64 == 0 {
+                                        tokio::time::sleep(Duration::from_millis(2)).await; // bursts
+                                    }
+                                    if got >= size {
+                                        // everything is here; a short look for anything extra, then done
+                                        if let Ok(Ok(m)) = tokio::time::timeout(Duration::from_millis(300), s.read(&mut buf)).await {
+                                            got += m as u64;
+                                            eof = m == 0;
+                                        }
+                                        break;
+                                    }
+                                }
+                                _ => break,
+                            }
+                        }
+                        Ok((got, first_diff.unwrap_or(u64::MAX), reads, eof))
+                    }
+                    .await;
+                    match r {
+                        Err(e) => rep.inconclusive(format!("e2e download {:?}: {e}", case)),
+                        Ok((got, first_diff, reads, eof)) => {
+                            rep.add("e2e_front_end_downloads_checked", 1);
+                            rep.add("e2e_bytes_compared", got);
+                            rep.add("e2e_download_reads", reads);
+                            let cause = format!("e2e_download+{front}+late_bursty_reader");
+                            if first_diff != u64::MAX {
+                                rep.violate("mux", &cause, "content_mismatch", format!("source -> Server -> Client -> {front} front-end -> application (starts reading after {late_ms} ms, reads of <= {burst} bytes): of {size} bytes sent the application received {got}; the first byte that differs from what was sent is at offset {first_diff}"), case);
+                            } else if got != size {
+                                rep.violate("mux", &cause, if got < size { "download_truncated_at_application" } else { "extra_bytes" }, format!("source -> Server -> Client -> {front} front-end -> application (starts reading after {late_ms} ms): {size} bytes sent, {got} received{}", if eof { ", then end of stream" } else { ", no end of stream within 20 s" }), case);
+                            }
+                        }
+                    }
+                }
+                client.stop_session_pool_cleanup().await;
+            } else {
+                rep.inconclusive("cannot start the front-ends for the download part");
             }
         }
         rep
